@@ -11,15 +11,17 @@ import gmx_common as G
 
 os.environ.setdefault("TQDM_DISABLE", "1")      # Actuator.run draws a progress bar per whole run
 PROPERTY = "C17"
-LEAN_MODULES = ["Proofs.C17", "Proofs.C17.V1Fee", "Proofs.C17.V2", "Proofs.C17.Bars", "Proofs.C17.V1Round", "Proofs.C17.V1RoundPy"]
+LEAN_MODULES = ["Proofs.C17", "Proofs.C17.V1Fee", "Proofs.C17.V2", "Proofs.C17.Bars", "Proofs.C17.V1Round", "Proofs.C17.V1RoundPy", "Proofs.C17.V1Seq", "Proofs.C17.V2Ops", "Proofs.C17.V1RoundAny", "Proofs.C17.V1RoundDiff", "Proofs.C17.V1FeeEnv", "Proofs.C17.Ledger", "Proofs.C17.V1TripAny"]
 DRIVERS = ["driver_gmx"]
 RULE = ("v1: rows = the two recorded CSV days (sampled, optionally with one token's USDG amount moved to 0/0.3/1∓1e-6/1/1.7/3.2 x target) and synthetic "
         "rows (1-7 tokens, weights incl. 0, USDG supply 0/tiny/1e20-1e27, per-token USDG at 0-4 x target, AUM/GLP incl. 0, glp_price consistent with "
         "AUM/supply); operation sequences of buy/sell/update with amounts zero, negative, 1-999 wei, exact balance/holding, balance x (1 +- 1e-6..1.1e-5), "
         "10 x balance/holding, unknown token, token without wallet entry; a fee sweep over (token, USDG delta incl. exact target crossings, direction) against "
-        "an integer re-implementation of VaultUtils.getFeeBasisPoints; same-bar round trips.  v2: pools with long/short skew 0.01-50, virtual inventory "
+        "an integer re-implementation of VaultUtils.getFeeBasisPoints; same-bar round trips and same-token sequences of 2-7 buys / partial sales / sell-all (amount 0) / rejected sales "
+        "closed so that the holding ends where it started (tokens out <= tokens in, and every call's wallet delta).  v2: pools with long/short skew 0.01-50, virtual inventory "
         "present/absent/None, impact pool 0-1e9, zeroed fields, default and perturbed PoolConfig (incl. positive > negative factor, exponent != 2), "
-        "dataclass rows and pandas rows; deposit/withdraw sequences with the same amount classes; round trips.  special numbers: every amount argument of "
+        "dataclass rows and pandas rows; deposit/withdraw sequences with the same amount classes; round trips; deposit/withdraw(None)/partial/rejected sequences mostly on the heavy side "
+        "(no positive impact) closed at the starting holding (value out <= value in); rows with poolValue at the edge of the double range.  special numbers: every amount argument of "
         "buy_glp / sell_glp / deposit / withdraw as float nan, +-inf, -0.0, +-1e90 and Decimal NaN, sNaN, +-Infinity, +-1E+400, -0, 1E-400, with the strict wallet and with "
         "allow_negative_balance, after 0-2 ordinary operations (no number of the state may become NaN/inf; v2 and finite v1 arguments are also compared with the model).  "
         "bucket = (version, operation, model branch tag or fee branch, outcome class, argument class).")
@@ -99,9 +101,43 @@ def de_op(o):
     return o
 
 
+def wallet_delta_oracle(ctx, ver, w, op, out, res, pre, post, rep):
+    """the ledger of the round-trip / sequence theorems IS the wallet: an accepted buy / deposit takes exactly the amounts passed out of the
+    wallet, an accepted sell / withdraw puts exactly the returned amounts in, every other balance (and, on a rejected call, every balance)
+    stays as it was.  Evaluated on the broker's own balances before and after the call (35-digit Decimal additions: 1e-30 relative)."""
+    want = {}
+    kind = op["kind"]
+    if out == "ok":
+        if kind == "buy":
+            want[w.token(op["tok"], op.get("dec")).name] = -F(op["amount"])
+        elif kind == "sell":
+            want[w.token(op["tok"], op.get("dec")).name] = F(res)
+        elif kind == "deposit":
+            for t, a in ((w.long, op["long"]), (w.short, op["short"])):
+                want[t.name] = want.get(t.name, F(0)) - F(float(a))
+        elif kind == "withdraw":
+            for t, a in ((w.long, res.long_amount), (w.short, res.short_amount)):
+                want[t.name] = want.get(t.name, F(0)) + F(a)
+    b0 = {k: F(v) for k, v in pre["wallet"]}
+    b1 = {k: F(v) for k, v in post["wallet"]}
+    for k in sorted(set(b0) | set(b1) | set(want)):
+        d, e = b1.get(k, F(0)) - b0.get(k, F(0)), want.get(k, F(0))
+        if d != e and abs(d - e) > G.TOL30 * max(abs(b0.get(k, F(0))), abs(b1.get(k, F(0))), abs(e)):
+            p0 = b0.get(k, F(0))
+            if out == "ok" and kind in ("buy", "deposit") and not w.allow_negative and k in b1 and b1[k] == 0 and p0 != 0 and abs(p0 + e) < F(0.00001) * abs(p0):
+                # the broker's documented dust sweep (Asset.sub): a debit within 0.001 % of the balance takes the whole balance
+                ctx.count(f"wallet_dust_sweep_debits:v{ver}")
+                continue
+            name = {"buy": "buy_glp", "sell": "sell_glp"}.get(kind, kind)
+            ctx.violate(f"v{ver}.{name}.wallet_delta" + ("" if out == "ok" else ".rejected"),
+                        f"{name}({', '.join(repr(op[x]) for x in ('tok', 'amount', 'long', 'short') if x in op)}) -> {out}: wallet balance of {k} moved by {float(d)!r} "
+                        f"(from {b0.get(k)} to {b1.get(k)}); the call's own amounts say {float(e)!r}", rep)
+
+
 def v1_step_oracle(ctx, w, op, cls, out, res, pre, post, spec, rep=None):
     """the C17 clauses that are visible on one call"""
     rep = rep or {"world": spec, "ops": [ser_op(op)]}
+    wallet_delta_oracle(ctx, 1, w, op, out, res, pre, post, rep)
     if op["kind"] == "fee":
         if out == "ok":
             v1_fee_oracle(ctx, w, op["tok"], int(op["amount"]), op["increase"], res, rep)
@@ -269,9 +305,15 @@ def v1_roundtrip_case(ctx, spec, tok, amount, parts, record=True):
     """buy `amount` of tok, sell the minted GLP back (in `parts` pieces) for the same token, same bar. True = no profit."""
     w = G.V1World.from_spec(spec)
     t = w.token(tok)
-    out, g, _ = w.apply({"kind": "buy", "tok": tok, "amount": amount})
+    rep = {"world": spec, "roundtrip": {"tok": tok, "amount": str(amount), "parts": parts}}
+    sub = ctx if record else Ctx(ctx.prop, ctx.tier, ctx.seed, False)
+    pre = w.dump()
+    op = {"kind": "buy", "tok": tok, "amount": amount}
+    out, g, _ = w.apply(op)
+    wallet_delta_oracle(sub, 1, w, op, out, g, pre, w.dump(), rep)
     if out != "ok":
         return None
+    wallet0 = F(dict(pre["wallet"]).get(t.name, 0))
     got = Decimal(0)
     rest = g
     for i in range(parts):
@@ -280,14 +322,25 @@ def v1_roundtrip_case(ctx, spec, tok, amount, parts, record=True):
             continue
         if piece == 0:
             break            # sell_glp(0) would mean "everything held"
-        o2, r2, _ = w.apply({"kind": "sell", "tok": tok, "amount": piece})
+        pre = w.dump()
+        op = {"kind": "sell", "tok": tok, "amount": piece}
+        o2, r2, _ = w.apply(op)
+        wallet_delta_oracle(sub, 1, w, op, o2, r2, pre, w.dump(), rep)
         if o2 != "ok":
             return None
         got += r2
         rest -= piece
     ok = F(got) <= F(amount) * (1 + G.TOL30)
     if not ok and record:
-        ctx.violate("v1.roundtrip.profit", f"buy_glp({tok}, {amount}) then selling the {g} GLP returns {got} > paid", {"world": spec, "roundtrip": {"tok": tok, "amount": str(amount), "parts": parts}})
+        ctx.violate("v1.roundtrip.profit", f"buy_glp({tok}, {amount}) then selling the {g} GLP returns {got} > paid", rep)
+    # the same statement on the wallet itself: after the round trip the token balance is not above where it started
+    wallet1 = F(dict(w.dump()["wallet"]).get(t.name, 0))
+    if wallet1 > wallet0 + G.TOL30 * max(abs(wallet0), abs(wallet1)):
+        ok = False
+        if record:
+            ctx.violate("v1.roundtrip.profit", f"buy_glp({tok}, {amount}) then selling the {g} GLP: wallet {t.name} went from {float(wallet0)!r} to {float(wallet1)!r}", rep)
+    if sub is not ctx and sub.violations:
+        ok = False
     return ok, got, g
 
 
@@ -308,6 +361,79 @@ def v1_roundtrips(ctx: Ctx, n: int):
             ratio = F(got) / F(amount) if amount else F(0)
             ctx.case(f"v1:roundtrip:{'ok' if ok else 'PROFIT'}:{kind}:parts{parts}:loss~{'0' if ratio > F(9999, 10000) else ('<1%' if ratio > F(99, 100) else '>=1%')}",
                      {"tok": tok, "amount": str(amount), "back": str(got)})
+
+
+def v1_sequence_case(ctx, spec, tok, ops, record=True):
+    """theorem C17_v1_sequence_no_profit on the implementation: ANY list of buy_glp / sell_glp (0 = everything held) calls on one token in one bar,
+    accepted or rejected; if the holding at the end is at least the holding at the start, the tokens received do not exceed the tokens paid.
+    Returns (holds?, tokens in, tokens out, outcomes) or None when the premise (final holding >= initial) is not met."""
+    w = G.V1World.from_spec(spec)
+    rep = {"world": spec, "sequence": {"tok": tok, "ops": [ser_op(o) for o in ops]}}
+    sub = ctx if record else Ctx(ctx.prop, ctx.tier, ctx.seed, False)
+    g0 = F(w.market.glp_amount)
+    t_in = t_out = F(0)
+    outs = []
+    for op in ops:
+        pre = w.dump()
+        out, res, _ = w.apply(op)
+        wallet_delta_oracle(sub, 1, w, op, out, res, pre, w.dump(), rep)
+        outs.append(out)
+        if out == "ok" and op["kind"] == "buy":
+            t_in += F(op["amount"])
+        elif out == "ok" and op["kind"] == "sell":
+            t_out += F(res)
+    if F(w.market.glp_amount) < g0:
+        return None
+    ok = t_out <= t_in * (1 + G.TOL30)
+    if not ok and record:
+        ctx.violate("v1.sequence.profit", f"{len(ops)} buy_glp/sell_glp calls on {tok} in one bar ({', '.join(o['kind'] + ':' + str(o['amount']) for o in ops)}) -> {outs}: holding "
+                    f"{float(g0)!r} -> {w.market.glp_amount}, tokens received {float(t_out)!r} > tokens paid {float(t_in)!r}"[:700], rep)
+    if sub is not ctx and sub.violations:
+        ok = False
+    return ok, t_in, t_out, outs
+
+
+def v1_sequence_runs(ctx: Ctx, n: int):
+    for _ in range(n):
+        row, names, kind = G.gen_v1_row(ctx.rng)
+        tok = ctx.rng.choice(names)
+        dec = G.V1_DEC[tok]
+        glp0 = ctx.rng.choice([None, None, G.rand_dec(ctx.rng, -3, 6, 18)])
+        w = G.V1World(row, names, [(tok, G.rand_dec(ctx.rng, 2, 9, min(dec, 6)))], glp=glp0)
+        spec = w.spec()
+        g0 = Decimal(0) if glp0 is None else glp0
+        ops, shape = [], []
+        for i in range(ctx.rng.randint(2, 6)):
+            c = ctx.rng.random()
+            held = w.market.glp_amount
+            if c < 0.45 or i == 0:
+                a = ctx.rng.choice([Decimal(ctx.rng.randint(1, 9999)) / Decimal(10 ** dec), G.rand_dec(ctx.rng, -6, 6, min(dec, ctx.rng.randint(0, 18)))])
+                op, sh = {"kind": "buy", "tok": tok, "amount": a}, "b"
+            elif c < 0.6:
+                op, sh = {"kind": "sell", "tok": tok, "amount": Decimal(0)}, "A"                    # everything held
+            elif c < 0.7:
+                op, sh = {"kind": "sell", "tok": tok, "amount": held * 10 + 1}, "x"                # rejected
+            else:
+                part = (held * Decimal(str(round(ctx.rng.uniform(0.05, 0.95), 3)))).quantize(Decimal(1).scaleb(-18))
+                op, sh = {"kind": "sell", "tok": tok, "amount": part}, "s"
+                if part == 0:
+                    continue
+            w.apply(op)
+            ops.append(op)
+            shape.append(sh)
+        # close the sequence so that the holding ends where it started (or above): sell exactly the surplus — `0` = everything when nothing was held
+        surplus = w.market.glp_amount - g0
+        if surplus > 0 and ctx.rng.random() < 0.8:
+            ops.append({"kind": "sell", "tok": tok, "amount": Decimal(0) if g0 == 0 and ctx.rng.random() < 0.6 else surplus})
+            shape.append("A" if ops[-1]["amount"] == 0 else "c")
+        r = v1_sequence_case(ctx, spec, tok, ops)
+        ctx.impl_traces += 1
+        if r is None:
+            ctx.case(f"v1:sequence:premise-not-met:{kind}")
+        else:
+            ok, t_in, t_out, outs = r
+            ctx.case(f"v1:sequence:{'ok' if ok else 'PROFIT'}:{kind}:{''.join(shape)}:{'held0' if g0 == 0 else 'held+'}:{'some-rejected' if any(o != 'ok' for o in outs) else 'all-accepted'}",
+                     {"tok": tok, "in": str(t_in), "out": str(t_out)})
 
 
 # ---------------------------------------------------------------------------------------------------- v1 across bars
@@ -511,6 +637,8 @@ def v2_formula_oracle(ctx, w: G.V2World, op, r, pre_amount, rep):
 
 def v2_step_oracle(ctx, w, op, out, res, pre, post, rep):
     a0, a1 = pre["amount"], post["amount"]
+    if out != "ok" or all(math.isfinite(float(getattr(res, k))) for k in ("long_amount", "short_amount")):
+        wallet_delta_oracle(ctx, 2, w, op, out, res, pre, post, rep)
     if a0 >= 0 and (a1 < 0 or math.isnan(a1)):
         ctx.violate(f"v2.{op['kind']}.negative_holding", f"{op['kind']} leaves amount = {a1!r} (was {a0!r})", rep)
     if op["kind"] == "withdraw" and out == "ok":
@@ -670,10 +798,20 @@ def v2_multibar(ctx: Ctx, n: int):
 
 def v2_roundtrip_case(ctx, spec, la, sa, record=True):
     w = G.V2World.from_spec(spec)
-    out, r, _ = w.apply({"kind": "deposit", "long": la, "short": sa})
+    rep = {"world": spec, "roundtrip": {"long": repr(la), "short": repr(sa)}}
+    sub = ctx if record else Ctx(ctx.prop, ctx.tier, ctx.seed, False)
+    pre0 = w.dump()
+    op = {"kind": "deposit", "long": la, "short": sa}
+    out, r, _ = w.apply(op)
+    mid = w.dump()
+    wallet_delta_oracle(sub, 2, w, op, out, r, pre0, mid, rep)
     if out != "ok":
         return None
-    o2, r2, _ = w.apply({"kind": "withdraw", "amount": r.gm_amount})
+    op2 = {"kind": "withdraw", "amount": r.gm_amount}
+    o2, r2, _ = w.apply(op2)
+    post = w.dump()
+    if o2 != "ok" or all(math.isfinite(x) for x in (r2.long_amount, r2.short_amount)):
+        wallet_delta_oracle(sub, 2, w, op2, o2, r2, mid, post, rep)
     if o2 != "ok":
         return None
     d = w.market._market_status.data
@@ -682,10 +820,20 @@ def v2_roundtrip_case(ctx, spec, la, sa, record=True):
     back = F(r2.long_amount) * lp + F(r2.short_amount) * sp
     imp = r.price_impact_usd
     ok = back <= paid * (1 + F(1, 10 ** 12))
+    # the same on the wallet itself: value of (long, short) balances after vs before the round trip, at the row's prices
+    val = lambda dmp: sum(F(v) * (lp if k == w.long.name else sp) for k, v in dmp["wallet"] if k in (w.long.name, w.short.name))
+    v0, v1 = val(pre0), val(post)
+    if v1 - v0 > (back - paid) + F(1, 10 ** 12) * max(abs(v0), abs(v1), paid):
+        ok = False
+        if record:
+            ctx.violate("v2.roundtrip.wallet_value", f"deposit({la!r}, {sa!r}) then withdraw of the minted GM: wallet value moved by {float(v1 - v0)!r} USD while the calls "
+                        f"returned {float(back)!r} for {float(paid)!r} paid", rep)
+    if sub is not ctx and sub.violations:
+        ok = False
     if not ok and record:
         key = "v2.roundtrip.profit.positive_impact" if imp > 0 else "v2.roundtrip.profit"
         ctx.violate(key, f"deposit({la!r}, {sa!r}) then withdraw of the minted {r.gm_amount!r} GM returns value {float(back)!r} > paid {float(paid)!r} (price impact {imp!r} USD)",
-                    {"world": spec, "roundtrip": {"long": repr(la), "short": repr(sa)}})
+                    rep)
     return ok, imp, paid, back
 
 
@@ -708,6 +856,85 @@ def v2_roundtrips(ctx: Ctx, n: int):
             ok, imp, paid, back = r
             ctx.case(f"v2:roundtrip:{'ok' if ok else 'PROFIT'}:impact{'+' if imp > 0 else ('-' if imp < 0 else '0')}:{'long' if sa == 0 else ('short' if la == 0 else 'both')}:{pcls}:{'cfg' if cfg else 'default'}",
                      {"pool": pcls, "long": la, "short": sa, "paid": float(paid), "back": float(back), "impact": imp})
+
+
+def v2_sequence_case(ctx, spec, ops, record=True):
+    """theorem C17_v2_sequence_no_profit on the implementation: any list of deposit / withdraw (None = everything) calls in one bar whose accepted
+    deposits carry no positive price impact; if the GM holding at the end is at least the holding at the start, the value withdrawn (at the row's
+    prices) does not exceed the value deposited.  Returns (holds?, paid, back, outcomes, any positive impact?) or None (premise not met)."""
+    w = G.V2World.from_spec(spec)
+    rep = {"world": spec, "sequence": {"ops": [ser_op(o) for o in ops]}}
+    sub = ctx if record else Ctx(ctx.prop, ctx.tier, ctx.seed, False)
+    d = w.market._market_status.data
+    lp, sp = F(float(d.longPrice)), F(float(d.shortPrice))
+    a0 = float(w.market.amount)
+    paid = back = F(0)
+    outs, positive = [], False
+    for op in ops:
+        pre = w.dump()
+        out, res, _ = w.apply(op)
+        post = w.dump()
+        if out != "ok" or all(math.isfinite(float(getattr(res, k))) for k in ("long_amount", "short_amount")):
+            wallet_delta_oracle(sub, 2, w, op, out, res, pre, post, rep)
+        outs.append(out)
+        if out == "ok" and op["kind"] == "deposit":
+            paid += F(float(op["long"])) * lp + F(float(op["short"])) * sp
+            positive = positive or res.price_impact_usd > 0
+        elif out == "ok":
+            back += F(res.long_amount) * lp + F(res.short_amount) * sp
+    if not (float(w.market.amount) >= a0):
+        return None
+    ok = positive or back <= paid * (1 + F(1, 10 ** 11))
+    if not ok and record:
+        ctx.violate("v2.sequence.profit", f"{len(ops)} deposit/withdraw calls in one bar, no positive price impact -> {outs}: holding {a0!r} -> {w.market.amount!r}, value withdrawn "
+                    f"{float(back)!r} > value deposited {float(paid)!r}"[:700], rep)
+    if sub is not ctx and sub.violations:
+        ok = False
+    return ok, paid, back, outs, positive
+
+
+def v2_sequence_runs(ctx: Ctx, n: int):
+    for _ in range(n):
+        pool, pcls = G.gen_v2_pool(ctx.rng)
+        if pcls.startswith("zero"):
+            continue
+        cfg = G.gen_v2_cfg(ctx.rng)
+        a0 = ctx.rng.choice([0.0, 0.0, round(G._logu(ctx.rng, -2, 6), 4)])
+        w = G.V2World(pool, cfg, [("weth", Decimal(10) ** 9), ("usdc", Decimal(10) ** 12)], amount=a0)
+        spec = w.spec()
+        # the heavy side of the pool: deposits there are priced with a negative impact
+        heavy_long = pool["longAmount"] * pool["longPrice"] >= pool["shortAmount"] * pool["shortPrice"]
+        ops, shape = [], []
+        for i in range(ctx.rng.randint(2, 6)):
+            c = ctx.rng.random()
+            held = float(w.market.amount)
+            if c < 0.45 or i == 0:
+                usd = G._logu(ctx.rng, 0, 6)
+                side_long = heavy_long if ctx.rng.random() < 0.85 else not heavy_long
+                both = ctx.rng.random() < 0.15
+                op = {"kind": "deposit", "long": usd / pool["longPrice"] if (side_long or both) else 0.0, "short": usd / pool["shortPrice"] if (not side_long or both) else 0.0}
+                sh = "d"
+            elif c < 0.6:
+                op, sh = {"kind": "withdraw", "amount": None}, "A"
+            elif c < 0.7:
+                op, sh = {"kind": "withdraw", "amount": held * 10 + 1}, "x"
+            else:
+                op, sh = {"kind": "withdraw", "amount": held * ctx.rng.uniform(0.05, 0.95)}, "w"
+            w.apply(op)
+            ops.append(op)
+            shape.append(sh)
+        surplus = float(w.market.amount) - a0
+        if surplus > 0 and ctx.rng.random() < 0.8:
+            ops.append({"kind": "withdraw", "amount": None if a0 == 0.0 and ctx.rng.random() < 0.6 else surplus})
+            shape.append("A" if ops[-1]["amount"] is None else "c")
+        r = v2_sequence_case(ctx, spec, ops)
+        ctx.impl_traces += 1
+        if r is None:
+            ctx.case("v2:sequence:premise-not-met")
+        else:
+            ok, paid, back, outs, positive = r
+            ctx.case(f"v2:sequence:{'ok' if ok else 'PROFIT'}:{'impact+' if positive else 'impact<=0'}:{''.join(shape)}:{'held0' if a0 == 0 else 'held+'}:"
+                     f"{'some-rejected' if any(o != 'ok' for o in outs) else 'all-accepted'}:{'cfg' if cfg else 'default'}", {"pool": pcls, "paid": float(paid), "back": float(back)})
 
 
 # ---------------------------------------------------------------------------------------------------- whole runs through the real Actuator
@@ -945,9 +1172,11 @@ def run(ctx: Ctx):
     v1_sequences(ctx, ctx.scale(700, 12000))
     v1_fee_sweep(ctx, ctx.scale(1500, 40000))
     v1_roundtrips(ctx, ctx.scale(500, 10000))
+    v1_sequence_runs(ctx, ctx.scale(400, 8000))
     v1_multibar(ctx, ctx.scale(160, 3000))
     v2_sequences(ctx, ctx.scale(900, 15000))
     v2_roundtrips(ctx, ctx.scale(700, 12000))
+    v2_sequence_runs(ctx, ctx.scale(400, 8000))
     v2_multibar(ctx, ctx.scale(160, 3000))
     v1_actuator_runs(ctx, ctx.scale(12, 150))
     v2_actuator_runs(ctx, ctx.scale(12, 150))
@@ -972,7 +1201,12 @@ def replay(ctx: Ctx, case) -> bool:
     sp = case["world"]
     if "special" in case:
         return G.special_replay(case, "")
-    if "roundtrip" in case:
+    if "sequence" in case:
+        sq = case["sequence"]
+        ops = [de_op(o) for o in sq["ops"]]
+        r = v1_sequence_case(sub, sp, sq["tok"], ops) if sp["ver"] == 1 else v2_sequence_case(sub, sp, ops)
+        print(f"   sequence -> {r}")
+    elif "roundtrip" in case:
         rt = case["roundtrip"]
         if sp["ver"] == 1:
             r = v1_roundtrip_case(sub, sp, rt["tok"], Decimal(rt["amount"]), rt["parts"])
